@@ -238,12 +238,44 @@ def run(ctx, res):
                 return chain
             r = g.root_of(t["args"][0], through_named=True)
         return chain
-    ins = [(bi, t) for bi, t in dc.calls() if (M.callee_name(t) or "").endswith("::insert") and "HashMap" in (M.callee_name(t) or "")]
-    gd = [(bi, t) for bi, t in dc.calls() if M.callee_name(t) == "lsp::get_diagnostics"]
+    def sync_sites(g):
+        i_ = [(bi, t) for bi, t in g.calls() if (M.callee_name(t) or "").endswith("::insert") and "HashMap" in (M.callee_name(t) or "")]
+        g_ = [(bi, t) for bi, t in g.calls() if M.callee_name(t) == "lsp::get_diagnostics"]
+        return i_, g_
+    ins, gd = sync_sites(dc)
+    via = None
+    if not ins and not gd:
+        # the store-and-diagnose step may live in a helper shared with didOpen: follow the text argument one call down
+        for bi, t in dc.calls():
+            n = M.callee_name(t) or ""
+            h = P.funcs.get(n)
+            if h is None or not n.startswith("lsp::"):
+                continue
+            hi, hg = sync_sites(h)
+            if hi and hg:
+                via = (h, t)
+                ins, gd = hi, hg
+                break
     res.floor("DOC-SYNC", "document store inserts in handle_did_change", len(ins), 1)
     res.floor("DOC-SYNC", "get_diagnostics calls in handle_did_change", len(gd), 1)
+
+    def text_chain(t, argi):
+        if via is None:
+            return provenance(dc, t["args"][argi])
+        h, ct = via
+        ch = provenance(h, t["args"][argi])
+        # continue from the helper's parameter at the call site
+        r = h.root_of(t["args"][argi], through_named=True)
+        for _ in range(8):
+            if r[0] == "call" and r[2]["args"]:
+                r = h.root_of(r[2]["args"][0], through_named=True)
+            else:
+                break
+        if r[0] == "place" and 1 <= r[1]["l"] <= h.argc and len(ct["args"]) >= r[1]["l"]:
+            return ch + provenance(dc, ct["args"][r[1]["l"] - 1])
+        return ch
     for what, (bi, t), argi in [("stored text", x, 2) for x in ins] + [("checked text", x, 0) for x in gd]:
-        ch = provenance(dc, t["args"][argi])
+        ch = text_chain(t, argi)
         want_text = "get(text)" in ch
         i_text = ch.index("get(text)") if want_text else -1
         after = ch[i_text + 1:] if want_text else ch
